@@ -325,3 +325,6 @@ def run(ctx):
                     ctx.holds("C15.R10", f"{m_.qualname}: `{norm(n)}`", m_.where(n))
     if n_key_tests < 2:
         ctx.unrecognised("C15.R10", "key state tests", encJ.methods["write_value"].where() if "write_value" in encJ.methods else "", f"only {n_key_tests} tests of the pending key found (encoder write_value and decoder descent expected)")
+
+    # ---- shared ----
+    ctx.borrow("C12", {"C12.R1": "C15.R11"}, "json_writer / json_reader encode under the schema the caller gave: a schema argument rewritten before it is parsed (decoded as JSON text, normalised) makes the JSON codec use another schema than the binary codec does for the same argument", only=lambda o: "json_" in o.get("where", ""))
